@@ -220,3 +220,25 @@ def real_keys(model, identity="ordered"):
     if model.response is not None:
         response = str(model.response.term.name)
     return response, common, group
+
+
+def expansion_bound(nd):
+    """Cheap upper bound on the number of terms a formula expands to (the expansion itself is
+    exponential in the nesting depth of * and **)."""
+    k = nd[0]
+    if k == "bin":
+        l, r = expansion_bound(nd[2]), expansion_bound(nd[3])
+        op = nd[1]
+        if op in ("+", "-", "~", "/"):
+            return l + r
+        if op in (":", "|"):
+            return max(1, l) * max(1, r)
+        if op == "*":
+            return l + r + l * r
+        if op == "**":
+            e = nd[3][1] if nd[3][0] == "lit" and isinstance(nd[3][1], int) else 2
+            return max(1, l) ** max(1, min(e, 6))
+        return l + r
+    if k == "un":
+        return expansion_bound(nd[2])
+    return 1
